@@ -329,8 +329,8 @@ class Responder(object):
         """
         self.environ = environ
 
-        if self.chunkable is not None:
-            self.chunkable = chunkable
+        if chunkable is not None:
+            self.chunkable = True if chunkable else False
 
         self.started = False
         self.headed = False
@@ -784,8 +784,8 @@ class Valet(object):
                                                         requestant.body))
                     # create or restart wsgi app responder here
                     environ = self.buildEnviron(requestant)
+                    chunkable = True if requestant.version >= (1, 1) else False
                     if ca not in self.reps:
-                        chunkable = True if requestant.version >= (1, 1) else False
                         responder = Responder(incomer=requestant.incomer,
                                                   app=self.app,
                                                   environ=environ,
@@ -793,7 +793,7 @@ class Valet(object):
                         self.reps[ca] = responder
                     else:  # reuse
                         responder = self.reps[ca]
-                        responder.reset(environ=environ)
+                        responder.reset(environ=environ, chunkable=chunkable)
 
     def serviceReps(self):
         """
